@@ -101,9 +101,13 @@ UnknownReq ==
   /\ Record([k |-> "unkreq", id |-> Step])
   /\ UNCHANGED <<docs, cache, phase>>
 
-UnknownNotif ==
+\* notifications the server does not implement - w selects the method: didSave, didChangeConfiguration, $/setTrace,
+\* a method nobody knows, and $/cancelRequest (naming the latest request, which - the server being sequential - has
+\* been answered already).  A notification is never answered, whatever it says.
+NotifMethods == 0..4
+UnknownNotif(w) ==
   /\ Running /\ "unknotif" \in Kinds
-  /\ Record([k |-> "unknotif"])
+  /\ Record([k |-> "unknotif", w |-> w])
   /\ UNCHANGED <<docs, cache, out, phase, pending>>
 
 ClientResponse ==
@@ -132,7 +136,7 @@ ClientStep == \/ \E u \in Uris, t \in Texts : DidOpen(u, t)
               \/ \E u \in Uris, ts \in ChangeLists : DidChange(u, ts)
               \/ \E t \in Texts : DidOpenNonFile(t)
               \/ \E u \in Uris \cup {0} : SemTok(u)
-              \/ UnknownReq \/ UnknownNotif \/ ClientResponse
+              \/ UnknownReq \/ (\E w \in NotifMethods : UnknownNotif(w)) \/ ClientResponse
 
 Next == ClientStep \/ Shutdown \/ Exit
 
